@@ -76,7 +76,7 @@ MC = {
         C("three-fixed-upd", 3, 3, FIXED, 0, True, 2, 2, types=("INT", "BIGINT", "BOOLEAN"), wrong=False),
         C("four-fixed-upd", 4, 4, dict(IntCls=["1"], BigCls=["2p32"], StrCls=["l1"]), 0, True, 2, 0, types=("INT", "BIGINT"), wrong=False),
         C("blank-twins", 1, 2, TWINS, 0, True, 3, 2, types=("VARCHAR",), wrong=False),
-        dict(C("unknown-column", 1, 3, dict(IntCls=["1"], BigCls=["0"], StrCls=["l1"]), 0, True, 3, 1, wrong=False), WithUnknown=True),
+        dict(C("unknown-column", 1, 2, dict(IntCls=["1"], BigCls=["0"], StrCls=["l1"]), 0, True, 2, 2, wrong=False), WithUnknown=True),
     ],
 }
 
